@@ -7,8 +7,8 @@ import json, subprocess, sys, os, importlib.util, importlib.machinery
 sys.path.insert(0, os.getcwd())
 spec = importlib.util.spec_from_loader("check", importlib.machinery.SourceFileLoader("check", "./check"))
 chk = importlib.util.module_from_spec(spec); spec.loader.exec_module(chk)
-env = chk.go_env(); ov, modp = chk.gen_overlay()
-props = json.load(open("props.json"))
+env = chk.go_env(); ov, modp = chk.gen_overlay(None)
+props = chk.load_props()
 pkgs = sorted({p["pkg"] for e in props.values() for p in e["parts"]})
 bad = 0
 for pkg in pkgs:
